@@ -85,6 +85,16 @@ func c03Check(m *MClaims, c psatoken.IClaims, kp keyPair, validating bool) strin
 	if d := checkGettersAgainstModel(dec.Claims, m, true); d != "" {
 		return "decoded claims differ from the model: " + d
 	}
+	// claim for claim, presence included: what the decoded Evidence exposes
+	// re-encodes to exactly the signed payload and to the original's JSON
+	// (getters alone mask e.g. a profile claim that was not in the token)
+	if re, err := psatoken.EncodeClaimsToCBOR(dec.Claims); err != nil || !bytes.Equal(re, parts.Payload) {
+		return fmt.Sprintf("the decoded Evidence's claims do not re-encode to the signed payload (a claim appeared or vanished):\n  payload   %x\n  re-encoded %x (%v)", parts.Payload, re, err)
+	}
+	j0, _ := psatoken.EncodeClaimsToJSON(c)
+	if j1, err := psatoken.EncodeClaimsToJSON(dec.Claims); err != nil || !bytes.Equal(j0, j1) {
+		return fmt.Sprintf("the decoded Evidence's claims differ from the originals in JSON form:\n  original %s\n  decoded  %s", j0, j1)
+	}
 	// the claims exposed are the decoding of the payload the signature covers
 	fromPayload, err := psatoken.DecodeClaimsFromCBOR(parts.Payload)
 	if err != nil {
